@@ -118,6 +118,10 @@ pub struct Ctx<'a> {
     pub last_sample: Option<Value>,
     pub counters: BTreeMap<String, u64>,
     pub maxima: BTreeMap<String, u64>,
+    /// Keys merged into the `case` of every failure while set (an oracle that derives many
+    /// texts from one enumerated case records the case's index, so that the replay can
+    /// regenerate it).
+    pub case_extra: Option<Value>,
     skipping: bool,
 }
 
@@ -140,6 +144,7 @@ impl<'a> Ctx<'a> {
             last_sample: None,
             counters: BTreeMap::new(),
             maxima: BTreeMap::new(),
+            case_extra: None,
             skipping: false,
         }
     }
@@ -207,7 +212,15 @@ impl<'a> Ctx<'a> {
         }
     }
 
-    pub fn fail(&mut self, f: Failure) {
+    pub fn fail(&mut self, mut f: Failure) {
+        if let Some(Value::Object(extra)) = &self.case_extra {
+            if !f.case.is_object() {
+                f.case = json!({});
+            }
+            for (k, v) in extra {
+                f.case[k.as_str()] = v.clone();
+            }
+        }
         if let Some(idx) = self.findings.matching(self.prop, &f) {
             let e = self.known_hits.entry(idx).or_insert((0, f.witness.clone()));
             e.0 += 1;
